@@ -3,7 +3,7 @@
    regenerated from /repo on every run (constant + source text of the helpers, tied in
    Proofs_shape.v).  Names are label lists, root first; [canon] folds ASCII case. *)
 From Sdns Require Import Common.Base Gen.C07 C07.Model C07.Proofs_names C07.Proofs_exchange
-  C07.Proofs_glue C07.Proofs_referral C07.Proofs_contain C07.Proofs_chase C07.Proofs_gluehist C07.Proofs_local C07.Proofs_fold C07.Proofs_zone C07.Proofs_shape.
+  C07.Proofs_glue C07.Proofs_referral C07.Proofs_contain C07.Proofs_chase C07.Proofs_gluehist C07.Proofs_local C07.Proofs_fold C07.Proofs_zone C07.Proofs_sub C07.Proofs_shape.
 Open Scope N_scope.
 
 (* A reply is accepted only when it parses, carries the outstanding query's ID and - when the
@@ -254,3 +254,16 @@ Theorem zone_filter_is_model_is_sub :
   go_NameInZone fuel (pres (canon n)) (pres (canon z)) = Some (is_sub z n).
 Proof. exact NameInZone_is_sub. Qed.
 Print Assumptions zone_filter_is_model_is_sub.
+
+(* TRANSLATOR TIE, dnsname.Sub / CompareSuffix (behind checkGlueRR's bailiwick test and progressingReferral).
+   Full statement (open): forall plain z n and enough fuel, go_Sub fuel (pres z) (pres n) = Some (is_sub z n).
+   Proved: the equation on every ordered pair of the 22-name grid of Proofs_sub.v, computed on the translated code. *)
+Theorem dnsname_Sub_is_model_is_sub_partial :
+  forall z n, In z grid -> In n grid -> go_Sub 64 (pres z) (pres n) = Some (is_sub z n).
+Proof. exact sub_agrees_partial. Qed.
+Print Assumptions dnsname_Sub_is_model_is_sub_partial.
+
+Theorem dnsname_CompareSuffix_is_model_partial :
+  forall a b, In a grid -> In b grid -> go_CompareSuffix 64 (pres a) (pres b) = Some (Z.of_nat (compare_suffix a b)).
+Proof. exact compare_suffix_agrees_partial. Qed.
+Print Assumptions dnsname_CompareSuffix_is_model_partial.
